@@ -55,4 +55,10 @@ func init() {
 		Assumptions: []string{"go/types + go/cfg model of the working tree", "Go time and context packages"},
 		ThoroughConfigs: []string{"elpscheck"},
 	})
+	registerProp(PropSpec{ID: "C09",
+		Rules: []string{"MUT.field", "MUT.elem", "MUT.grow", "MUT.view", "CENSUS.LVal.sealed"},
+		Explanation: "write discipline over shared parsed programs",
+		Assumptions: []string{"go/types + go/cfg model of the working tree"},
+		ThoroughConfigs: []string{"elpscheck"},
+	})
 }
